@@ -18,3 +18,4 @@ void reg_life();
 void reg_lifed();
 void reg_tls();
 void reg_tlsraw();
+void reg_sockcopy();
